@@ -43,6 +43,7 @@ def run(ck):
     ck.rule("C10.R2c", "every valueset! field-form arm is exercised by a fixture function", floor=20)
     ck.rule("C10.R4", "impl Value for T calls exactly the visitor method for its type", floor=30)
     ck.rule("C10.R5", "ValueSet::record visits a pair iff same callsite and Some; Span::record ignores undeclared", floor=3)
+    ck.rule("C10.R6", "recorded values reach the collector: the dispatcher's re-entrancy flag is given back on every exit (as C02.R6)", floor=3)
     fx = "fx" if ck.tier == "quick" else "fx:%d:300" % ck.seed
     FX = Facts(fx)
     ck.configs.append(fx)
@@ -66,6 +67,11 @@ def run(ck):
     ck.configs.append("default")
     r4(ck, F)
     r5(ck, F)
+    # the values an enabled macro built reach the collector only if the dispatcher lookup hands it out: the
+    # re-entrancy flag taken around every collector callback must be given back even when a callback (e.g. a field's
+    # Debug impl running inside the collector's visitor) panics, or every later macro on the thread records into nothing
+    from rules import C02
+    C02.r6(ck, F, rid="C10.R6")
 
 
 def marker_calls(FX, body):
